@@ -430,7 +430,14 @@ def check_step(world, pre, post, r, res):
     else:
         _check_identity(pre, post, S, props, "structural-identity", cell, out, tol)
     if do not in ("mk_env", "mk_custom", "mk_op"):
-        check_partition(pre, post, S, cell, out, measured_now)
+        left = list(measured_now)
+        if do == "measure" and res.status == "ok" and isinstance(res.ret, dict):
+            # a projectively measured subsystem leaves its product space, destroyed or not
+            for k in res.ret:
+                n = world.name_of(k)
+                if n is not None and n not in left:
+                    left.append(n)
+        check_partition(pre, post, S, cell, out, left)
     if do not in ("measure", "povm") and measured_now:
         out.append(Violation(props, "retirement", "unexpected-destruction", cell, f"{measured_now} destroyed by {do}"))
     return out
